@@ -337,6 +337,9 @@ class DegEval:
             if args:
                 return self.ev(args[0], env)
             return UNKNOWN
+        if m in ("insert", "drop", "union", "delete", "sort_values", "tz_localize", "tz_convert") and isinstance(f, ast.Attribute) \
+                and au.dotted(f.value) not in ("np", "numpy", "sp", "pd"):
+            return self.ev(f.value, env)          # an Index with a point added / removed is still a sequence of the same kind
         if m == "get" and isinstance(f, ast.Attribute):
             return UNKNOWN
         # eaopack set-up: summary of the returned problem
